@@ -24,9 +24,13 @@ ASSUMPTIONS = ["uuid.uuid5, vf/cborlite.py, vf/ihex.py, slot tables of C07", "Kc
 
 VENDORS = ["nordicsemi.com", "ACME Corp.", "acme corp.", "Example.COM", "", " lead", "trail ", "zażółć.pl", "ünï", "v" * 300, "a=b", "x#y",
            # characters that are part of a line for a text file reader but line boundaries for str.splitlines(); separators; escapes
-           "acme\x0ccorp", "a\x0bb", "fs\x1cgs\x1drs\x1e", "nel\u0085x", "ls\u2028ps\u2029", "tab\there", "acme/dev", "a:b|c,d;e", "R&D <lab> 'x'", "100%", "$HOME", "{{x}}", "back\\slash"]
+           "acme\x0ccorp", "a\x0bb", "fs\x1cgs\x1drs\x1e", "nel\u0085x", "ls\u2028ps\u2029", "tab\there", "acme/dev", "a:b|c,d;e", "R&D <lab> 'x'", "100%", "$HOME", "{{x}}", "back\\slash",
+           # names that spell a UUID are still names: they are hashed in the DNS namespace like any other
+           "c0ffee00c0ffee00c0ffee00c0ffee00", "6ba7b810-9dad-11d1-80b4-00c04fd430c8", "{12345678-1234-5678-1234-567812345678}", "urn:uuid:12345678-1234-5678-1234-567812345678",
+           "7617daa5-71fd-5a85-8f94-e28d735ce9f4", "007", "0x1f", "1e3", "true", "null", "~"]
 CLASSES = ["nRF54H20_sample_app", "App", "app", "", "Class With Spaces", "ключ", "c" * 300, "0x10", "y", "123",
-           "form\x0cfeed", "u\u2028v", "n\u0085", "dev/board", "R&D_board_app", "O'Neill_radio", "a<b>c", "{{ y }}", "tab\tx", "50%"]
+           "form\x0cfeed", "u\u2028v", "n\u0085", "dev/board", "R&D_board_app", "O'Neill_radio", "a<b>c", "{{ y }}", "tab\tx", "50%",
+           "00000000000000000000000000000000", "6ba7b810-9dad-11d1-80b4-00c04fd430c8", "007", "7", "0x1f", "31", "\u0661\u0662", "true", "y", "n"]
 
 
 def minimal(vendor, cls, seq=1):
